@@ -90,10 +90,11 @@ def translate(repo):
     except pyexpr2coq.TranslatorGap as e:
         _DEFS = None
         info['gap'] = str(e)
-        msg = str(e).replace('*)', '* )').replace('(*', '( *')
-        text = (head + f'(* TRANSLATOR GAP (fail closed): {msg} *)\n'
-                'From Coq Require Import Reals.\n'
-                'Definition translator_gap_see_comment_above : R := true.\n')
+        msg = ''.join(ch if ch.isalnum() or ch in " _.,:;()[]{}=+-*/<>'`" else ' ' for ch in str(e))
+        msg = msg.replace('(*', '( *').replace('*)', '* )')[:400]
+        # deliberately ill-typed, so that the build fails and coqc's error message carries the reason
+        text = (head + 'From Coq Require Import Reals String.\n'
+                f'Definition translator_gap : R :=\n  "{msg}"%string.\n')
     with open(os.path.join(vlib.COQ, GEN), 'w') as f:       # always rewritten: always re-checked
         f.write(text)
     # the correspondence files only need the hand-written Q model; make sure it is built even if the laws break
